@@ -234,6 +234,9 @@ IsIdle(K) ==
      /\ L.aq = <<>>
      /\ K.scroll = <<>> /\ K.hscroll = <<>>
      /\ K.mcd = 0
+     \* src: mod.rs is_idle (fix 345be8d): prev_keys.iter().all(|pk| layout.keycodes().any(|kc| kc == *pk));
+     \* Bug = "idle_ignores_prev" = the behaviour before the fix
+     /\ (Bug = "idle_ignores_prev" \/ \A i \in DOMAIN K.prev : Contains(Keycodes(L), K.prev[i]))
      /\ K.vpr = <<>>
      /\ K.dyn.rep = <<>>                       \* dynamic_macro_replay_state.is_none()
      /\ (~SqOn \/ ~K.sq.act)                   \* sequence_state.is_inactive()
